@@ -193,12 +193,12 @@ def shard_exotic(args):
     from curtsies.formatstring import FmtStr
 
     acc = Acc(seed=seed)
-    specs = C.exotic_specs() + C.huge_specs() + C.scale_specs(tier == "thorough")
+    specs = C.exotic_specs() + C.huge_specs() + C.scale_specs(tier == "thorough") + [C.adjacent_colour_pairs(), C.adjacent_colour_pairs((("bold", True),))]
     for si in range(idx, len(specs), 32):
         spec = specs[si]
         f = C.build(spec)
         want = C.spec_cells(spec)
-        case = {"kind": "derived_roundtrip", "f": C.show_spec(spec), "op": "exotic value"}
+        case = {"kind": "derived_roundtrip", "f": C.show_spec(spec) if len(spec) <= 60 else {"runs": len(spec), "first_runs": C.show_spec(spec[:6])}, "op": "exotic value"}
         acc.case(True, key=("x", si), sample=case)
         for rnd in range(2):
             try:
